@@ -17,11 +17,12 @@ type SeqProfile struct {
 	Sorts     [][2]string
 	Trigs     [][2]string
 	Capacity  int
-	Transport string // "chan" | "log"
-	Keyed     bool   // the collection has a primary key column: rows are created by InsertKey / UpsertKey
-	Collide   bool   // use both enum strings of the 32-bit hash collision pair
-	Replica   bool   // keep a replica R fed from the stream and dump it too
-	Prologue  string // "", "block1", "sparse", "three"
+	Transport string  // "chan" | "log"
+	Keyed     bool    // the collection has a primary key column: rows are created by InsertKey / UpsertKey
+	Collide   bool    // use both enum strings of the 32-bit hash collision pair
+	Lag       float64 // probability that the replica does NOT catch up at a dump (it always does at the end)
+	Replica   bool    // keep a replica R fed from the stream and dump it too
+	Prologue  string  // "", "block1", "sparse", "three"
 	Steps     int
 	PFailIns  float64 // an insert callback fails
 	PRollback float64 // a transaction ends in an error
@@ -41,6 +42,7 @@ type seqGen struct {
 	P, R   *Coll
 	live   []uint32
 	dumpN  int
+	final  bool
 	affine map[string]int // (col,row) -> affine merges since the last put (keeps numbers small)
 }
 
@@ -117,7 +119,7 @@ func (g *seqGen) dump() {
 		}
 	}
 	g.live = tracked
-	if g.R != nil {
+	if g.R != nil && (g.final || g.rnd.Float64() >= g.p.Lag) {
 		g.P.ReplayTo(g.R, "r")
 		g.R.Dump(g.dumpN % 3)
 	}
@@ -382,5 +384,7 @@ func RunSeq(seed int64, p SeqProfile) (out []Ev) {
 		})
 		g.dump()
 	}
+	g.final = true
+	g.dump()
 	return w.T.Finish()
 }
